@@ -93,6 +93,115 @@ def remove_class(cd, cid):
         del cd.associations[k]
 
 
+def const_member_count(c):
+    """number of parameters of the constructor kojen generates for the const, non static members (GetConstructor)"""
+    members = list(c.ATTRIBUTES) + list(c.GetAssociationsAsListOfAttributesPerVisibility("all"))
+    return len([a for a in members if a.IS_CONST and not a.IS_STATIC])
+
+
+def new_operation(cd, name, ret, params, visibility="public"):
+    """a fresh operation object (a copy of any parsed one, every field reset); params: list of (type, name)"""
+    donor = next((o for c in cd.classes.values() for o in c.OPERATIONS), None)
+    if donor is None:
+        return None
+    op = copy.deepcopy(donor)
+    op.NAME, op.VISIBILITY, op.RETURN_TYPE, op.RETURN_TYPE_MODIFIER = name, visibility, ret, ""
+    op.IS_STATIC = op.IS_CONST = op.VIRTUAL = False
+    op.USER_COMMENTS = ""
+    op.PARAMETERS = [{"const": "", "type": t, "name": n, "modifier": "", "defaultvalue": "", "multiplicity": "", "direction": "in"}
+                     for t, n in params]
+    return op
+
+
+def add_explicit_constructor(cd, cid):
+    """an explicit constructor operation with as many parameters as kojen's generated const-initialising constructor has
+    (at least one const member is made if there is none); returns the parameter count or None"""
+    c = cd.classes[cid]
+    k = const_member_count(c)
+    if k == 0:
+        cand = [a for a in c.ATTRIBUTES if not a.IS_STATIC]
+        if not cand:
+            return None
+        cand[0].IS_CONST = True
+        k = const_member_count(c)
+    op = new_operation(cd, c.NAME, "void", [("int", "_c%d" % j) for j in range(k)])
+    if op is None:
+        return None
+    c.OPERATIONS.append(op)
+    return k
+
+
+def add_overloads(cd, cid, rets, name="Convert"):
+    """two overloads name(int) / name(double) returning rets[0] / rets[1]"""
+    for ret, pt in zip(rets, ("int", "double")):
+        op = new_operation(cd, name, ret, [(pt, "_value")])
+        if op is None:
+            return False
+        cd.classes[cid].OPERATIONS.append(op)
+    return True
+
+
+def same_named_pair(rng, cd):
+    """two classes of one name in two different packages (fully qualified names); one is renamed when the diagram has none"""
+    plain = [c for c in cd.classes.values() if not (c.IS_ENUM or c.IS_STRUCT or c.PURE_VIRTUAL_INTERFACE or c.AUTOGEN) and c.NAMESPACE]
+    for a in plain:
+        for b in plain:
+            if a is not b and a.NAME == b.NAME and a.NAMESPACE != b.NAMESPACE:
+                return a.NAMESPACE + "::" + a.NAME, b.NAMESPACE + "::" + b.NAME
+    pairs = [(a, b) for a in plain for b in plain if a.NAMESPACE != b.NAMESPACE]
+    if not pairs:
+        return None
+    a, b = rng.choice(pairs)
+    old = b.NAME
+    b.NAME = a.NAME
+    for o in b.OPERATIONS:
+        if o.NAME.strip() == old.strip():
+            o.NAME = b.NAME
+    retarget_types(cd, b.NAMESPACE + "::" + old, b.NAMESPACE + "::" + b.NAME)
+    return a.NAMESPACE + "::" + a.NAME, b.NAMESPACE + "::" + b.NAME
+
+
+def remove_association(cd, name):
+    for k in [k for k, a in cd.associations.items() if a.NAME == name]:
+        del cd.associations[k]
+        return True
+    return False
+
+
+MULTIPLICITIES = ["0..1", "1", "*", "1..*", "0..*", "4", "2..5", "0"]
+
+
+def mutate_association(rng, cd, cid):
+    """remove / reorder / re-multiply an association end held by class cid (or any association); returns a label or None"""
+    mine = [k for k, a in cd.associations.items() if a.CLASS_FROM_ID == cid or a.CLASS_TO_ID == cid] or list(cd.associations)
+    if not mine:
+        return None
+    act = rng.choice(["remove", "reorder", "multiplicity", "kind", "static", "const"])
+    key = rng.choice(mine)
+    a = cd.associations[key]
+    if act == "remove":
+        del cd.associations[key]
+    elif act == "reorder":
+        keys = list(cd.associations)
+        rng.shuffle(keys)
+        items = [(k, cd.associations[k]) for k in keys]
+        cd.associations.clear()
+        cd.associations.update(items)
+    elif act == "multiplicity":
+        if rng.random() < 0.5:
+            a.CLASS_FROM_MULTIPLICITY = rng.choice(MULTIPLICITIES)
+        else:
+            a.CLASS_TO_MULTIPLICITY = rng.choice(MULTIPLICITIES)
+    elif act == "kind":
+        a.TYPE = rng.choice(["Association", "Aggregation", "Composition"])
+    elif act == "static":
+        a.CLASS_FROM_IS_STATIC = not a.CLASS_FROM_IS_STATIC
+    else:
+        a.CLASS_FROM_IS_CONST = not a.CLASS_FROM_IS_CONST
+    owner = cd.classes[a.CLASS_FROM_ID].NAME if a.CLASS_FROM_ID in cd.classes else "?"
+    return "association:%s:%s" % (act, owner)
+
+
 def mutate(rng, cd, n):
     """n random edits; returns the list of edit labels"""
     log = []
@@ -103,7 +212,8 @@ def mutate(rng, cd, n):
         cid = rng.choice(cids)
         c = cd.classes[cid]
         k = rng.choice(["rename-class", "remove-class", "retype-class", "rename-package", "rename-op", "remove-op", "retype-op",
-                        "param", "attribute", "relationship", "visibility", "copy-op", "second-path"])
+                        "param", "attribute", "relationship", "visibility", "copy-op", "second-path",
+                        "association", "association", "explicit-ctor", "overload", "overload-foreign-return", "attribute-flags"])
         if k == "rename-class":
             new = rng.choice(["C" + kj.ident(rng, "X"), "C" + kj.ident(rng, "X"), rng.choice(list(cd.classes.values())).NAME])
             old = c.NAME
@@ -171,6 +281,34 @@ def mutate(rng, cd, n):
                 k += ":flip-realisation"
         elif k == "visibility" and c.OPERATIONS:
             rng.choice(c.OPERATIONS).VISIBILITY = rng.choice(["public", "protected", "private", "package"])
+        elif k == "association":
+            k = mutate_association(rng, cd, cid) or k
+        elif k == "explicit-ctor":
+            n_params = add_explicit_constructor(cd, cid)
+            k += ":%s:%s" % (c.NAME, n_params)
+        elif k == "overload":
+            if c.OPERATIONS and rng.random() < 0.5:
+                o = copy.deepcopy(rng.choice(c.OPERATIONS))      # same name, arity and return type, another parameter type
+                if o.PARAMETERS:
+                    o.PARAMETERS[0]["type"] = "double" if o.PARAMETERS[0]["type"].strip() != "double" else "int"
+                    o.PARAMETERS[0]["modifier"], o.PARAMETERS[0]["multiplicity"], o.PARAMETERS[0]["defaultvalue"] = "", "", ""
+                    c.OPERATIONS.append(o)
+            else:
+                add_overloads(cd, cid, (rng.choice(["void", "int"]),) * 2, "Convert%d" % rng.randint(0, 9))
+            k += ":" + c.NAME
+        elif k == "overload-foreign-return":
+            pair = same_named_pair(rng, cd)
+            if pair:
+                add_overloads(cd, cid, pair, "Convert%d" % rng.randint(0, 9))
+                k += ":%s:%s" % (c.NAME, pair[0].rpartition("::")[2])
+        elif k == "attribute-flags" and c.ATTRIBUTES:
+            a = rng.choice(c.ATTRIBUTES)
+            f = rng.choice(["IS_CONST", "IS_STATIC", "MULTIPLICITY"])
+            if f == "MULTIPLICITY":
+                a.MULTIPLICITY = rng.choice(["", "*", "4", "0..*", "1"])
+            else:
+                setattr(a, f, not getattr(a, f))
+            k += ":" + f
         elif k == "second-path":
             # the class additionally realises a parent of an interface it already realises (two paths to the same operations)
             for i in list(cd.inheritence.values()):
@@ -191,6 +329,115 @@ def mutate(rng, cd, n):
                     break
         log.append(k)
     return log
+
+
+# ---------------------------------------------------------------- directed probes (shapes random edits reach rarely)
+
+def probe_names(label="TestClassDiagram"):
+    """deterministic list of directed probes for a shipped diagram"""
+    cd = load(label)
+    names = ["remove-association:" + a.NAME for a in cd.associations.values() if a.NAME]
+    names += ["reverse-associations", "to-one-last"]
+    for cid, c in cd.classes.items():
+        plain = not (c.IS_ENUM or c.IS_STRUCT or c.PURE_VIRTUAL_INTERFACE or c.AUTOGEN)
+        if plain and const_member_count(c) > 0:
+            names.append("explicit-ctor:" + c.NAME)
+    withops = [c.NAME for c in cd.classes.values() if c.OPERATIONS and not (c.IS_ENUM or c.IS_STRUCT or c.PURE_VIRTUAL_INTERFACE or c.AUTOGEN)]
+    for n in withops[:2]:
+        names += ["overloads-foreign-return:" + n, "overloads-same-return:" + n]
+    plainattr = [c.NAME for c in cd.classes.values() if c.ATTRIBUTES and const_member_count(c) == 0
+                 and not (c.IS_ENUM or c.IS_STRUCT or c.PURE_VIRTUAL_INTERFACE or c.AUTOGEN)]
+    names += ["explicit-ctor:" + n for n in plainattr[:1]]
+    return names
+
+
+def apply_probe(cd, probe):
+    """apply one directed probe to a loaded diagram; returns the names of the classes it touches (files worth compiling)"""
+    import random
+    kind, _, arg = probe.partition(":")
+    byname = {c.NAME: cid for cid, c in cd.classes.items()}
+    if kind == "remove-association":
+        owners = [cd.classes[a.CLASS_FROM_ID].NAME for a in cd.associations.values() if a.NAME == arg and a.CLASS_FROM_ID in cd.classes]
+        remove_association(cd, arg)
+        return owners
+    if kind == "reverse-associations":
+        items = list(cd.associations.items())[::-1]
+        cd.associations.clear()
+        cd.associations.update(items)
+        return sorted({cd.classes[a.CLASS_FROM_ID].NAME for a in cd.associations.values() if a.CLASS_FROM_ID in cd.classes})
+    if kind == "to-one-last":
+        # every class keeps its association ends, the to-one ends moved behind the to-many ends
+        def many(a):
+            return any(x in a.CLASS_FROM_MULTIPLICITY for x in ("*",)) or a.CLASS_FROM_MULTIPLICITY.strip() in ("1..*", "0..*")
+        items = sorted(cd.associations.items(), key=lambda kv: 0 if many(kv[1]) else 1)
+        cd.associations.clear()
+        cd.associations.update(items)
+        for a in cd.associations.values():          # and no other source of <vector> among the association ends' neighbours
+            if a.CLASS_FROM_IS_STATIC and many(a):
+                a.CLASS_FROM_MULTIPLICITY = "1"
+        return sorted({cd.classes[a.CLASS_FROM_ID].NAME for a in cd.associations.values() if a.CLASS_FROM_ID in cd.classes})
+    if kind == "explicit-ctor":
+        add_explicit_constructor(cd, byname[arg])
+        return [arg]
+    if kind == "overloads-foreign-return":
+        pair = same_named_pair(random.Random(0), cd)
+        if pair:
+            add_overloads(cd, byname[arg], pair)
+        return [arg]
+    if kind == "overloads-same-return":
+        add_overloads(cd, byname[arg], ("int", "int"))
+        return [arg]
+    raise ValueError(probe)
+
+
+# ---------------------------------------------------------------- operation-body tags the diagram stands for
+
+def clean_name(s):
+    """independent reading of vppclassdiagram.CleanName"""
+    for seq in ("\\n", "\\r", "\\t"):
+        s = s.replace(seq, "_")
+    return re.sub(r'[=<>;\n\r\t"()*+\-^%~!|:]', "_", s).replace(" ", "")
+
+
+def expected_param_tags(km, cd):
+    """{class NAME: [tag, ...]} : the ..._PARAMS tags of every concrete class's source file according to the DOCUMENTED scheme
+    USER_<CONSTRUCTOR | cleaned return type>_<class>_<operation>_<n>_PARAMS (+ USER_CONSTRUCTOR_<class>_<k>_PARAMS for the
+    generated const-initialising constructor), over the operations Model/Uml.v says are emitted (own + realised).
+    None when the model does not return (cyclic / dangling diagram)."""
+    lang = LanguageCPP.LanguageCPP()
+    D = abstract(cd, lang)
+    classes = list(cd.classes.values())
+    res = {}
+    for (cid, c), dc in zip(cd.classes.items(), D[0]):
+        if c.IS_ENUM or c.IS_STRUCT or c.AUTOGEN:
+            continue
+        m = km.call("uml_defs", str(len(classes)), D, cid)
+        if not m:
+            return None
+        tags = []
+        for e in m[0]:
+            cls, ret, name, params, _const = e[2]
+            owner = e[3].decode("utf-8")
+            op = None
+            for oc, odc in zip(classes, D[0]):
+                if oc.NAME != owner:
+                    continue
+                for o, od in zip(oc.OPERATIONS, odc[7]):
+                    if od[0].encode() == name and [[x[0].encode(), x[1].encode()] for x in od[3]] == params \
+                            and (o.NAME.strip() == oc.NAME.strip() or od[2].encode() == ret):
+                        op = o
+                        break
+                if op is not None:
+                    break
+            if op is None:
+                return None
+            ctor = op.NAME.strip() == owner.strip()
+            tags.append("USER_%s_%s_%s_%d_PARAMS" % ("CONSTRUCTOR" if ctor else clean_name(op.RETURN_TYPE), cls.decode("utf-8"), op.NAME, len(op.PARAMETERS)))
+        k = const_member_count(c)
+        if k and not c.PURE_VIRTUAL_INTERFACE:
+            tags.append("USER_CONSTRUCTOR_%s_%d_PARAMS" % (c.NAME, k))
+        res.setdefault(c.NAME, []).extend(tags)
+    return res
 
 
 def add_cycle(cd):
@@ -290,6 +537,12 @@ def definitions(source_text):
 CAUSES = [("constructors cannot be declared", "interface-constructor-declared-virtual"),
           ("initializer specified for static member function", "static-operation-of-interface-declared-pure"),
           ("default argument missing", "default-argument-before-non-default"),
+          ("\u2018vector\u2019 in namespace \u2018std\u2019 does not name", "missing-include-vector"),
+          ("'vector' in namespace 'std' does not name", "missing-include-vector"),
+          ("\u2018vector\u2019 is not a member of \u2018std\u2019", "missing-include-vector"),
+          ("'vector' is not a member of 'std'", "missing-include-vector"),
+          ("uninitialized const member", "drawn-constructor-cannot-initialise-const-member"),
+          ("uninitialized reference member", "drawn-constructor-cannot-initialise-const-member"),
           ("cannot be overloaded", "operation-emitted-twice"),
           ("redefinition of", "operation-emitted-twice"),
           ("no declaration matches", "definition-without-declaration"),
